@@ -62,15 +62,18 @@ def validate(d):
             probs.append(f"non-string id {i!r}")
             continue
         if n["k"] == "var":
-            s = ("var", tuple(n["b"]), n["cls"])
+            s = ("var", tuple(n["b"]))
         else:
             chids = [c["id"] for c in n["ch"]]
             if len(set(map(str, chids))) != len(chids):
                 probs.append(f"duplicate child under {i}")
             if not chids:
                 probs.append(f"empty compound {i}")
-            s = ("cmp", n["sign"], n["value"], tuple(sorted(map(str, chids))), tuple(n["b"]), n["cls"], n["gen"],
-                 n.get("prio"), repr(n.get("default")))
+            # one *definition* per id: sign, value, children, own bounds.  Class, generated-id flag, prio and
+            # default may differ between identical sub-propositions (e.g. the complement node of a defaulted
+            # cc.Any next to a plain Any over the same items): which copy flatten() keeps is decided by
+            # insertion order, not by the hash seed, so such models are deterministic and stay in scope
+            s = ("cmp", n["sign"], n["value"], tuple(sorted(map(str, chids))), tuple(n["b"]))
             graph.setdefault(i, set()).update(chids)
         if i in sig and sig[i] != s:
             probs.append(f"ambivalent definitions of {i}")
